@@ -28,6 +28,8 @@ STRENGTHENED = {
     'C03-4': 'missed at first (verify run of 11:4x with /verif commit 1e0c0a5..: rc=0; no crafted XML input had a <tag> after a <discussion>); C03 now has crafted XML inputs with every order of up to 3 child elements of 6 kinds under each parent and every order of 4 under <changeset>, run in both build modes and with tiny parser buffers',
     'C18-3': 'missed at first: round trip and strict monotonicity were judged only on the documented domain of lonlat_to_mercator (|lat| <= 85.0511288) although the property states them for every representable latitude; after the exhaustive thorough run had shown 0 mismatches outside that domain on the unchanged tree, both clauses are now judged for every latitude in [-90, 90]',
     'C18-4': 'missed at first for the same reason as C18-3 (the 36 affected latitudes lie within 3e-6 degrees of the poles, outside the domain that was judged); the +-10^4 neighbourhoods of +-90 degrees are swept with stride 1 in the quick tier and are now judged',
+    'C03-5': 'missed at first (no o5m input stored more than 15000 strings; C02 has such files but judges decoding, not memory safety of C03 inputs); C03 now reads o5m inputs that fill the reference table with 14998..15002 and 30001 strings followed by back references, in all three build variants',
+    'C03-6': 'missed at first (no input made the pending object reach the buffer capacity with a small committed part in front and a long string behind); C03 now sweeps the size of the second object of a valid file in element steps across 1 KiB / 4 KiB / 64 KiB (node refs, members, tags) followed by a string of 300 / 1000 bytes, in OPL, XML and PBF, in all three build variants',
     'C02-1': 'missed at first (string pairs near the 250-character table limit were deliberately kept out of the files); C02 now places pairs of exactly 249/250/251/252 characters followed by references',
 }
 
